@@ -293,4 +293,199 @@ theorem optionalErrors_length_int (l : Term) (n : Int) : optionalErrors "length"
 theorem optionalErrors_length_var (l : Term) (n : Nat) : optionalErrors "length" [l, .var n] =
     if l.spine.2 = .var n then [resourceErr "finite_memory"] else [] := rfl
 
+/-! ### `unifyM` on arbitrary terms -/
+
+/-- the fuel of the general path of `unifyM` -/
+def unifyFuel (a b : Term) : Nat := 4 * (a.size + b.size) * (max (boundT a) (boundT b) + 2) + 8
+
+/-- `unifyM a b` is defined: one side is ground (matching, no fuel involved) or the Robinson
+    unifier finished within its fuel -/
+def UnifyDefined (a b : Term) : Prop :=
+  groundT b = true ∨ groundT a = true ∨ unifyE (unifyFuel a b) [(a, b)] ≠ none
+
+theorem unifyM_general {a b : Term} (hb : groundT b = false) (ha : groundT a = false) :
+    unifyM a b = (match unifyE (unifyFuel a b) [(a, b)] with | some r => r | none => none) := by
+  simp only [unifyM, hb, ha, unifyFuel, Bool.false_eq_true, if_false]
+  split <;> rename_i h <;> simp [h]
+
+/-- `unifyM` computes a most general unifier, and fails only when there is none -/
+theorem unifyM_mgu {a b : Term} (hd : UnifyDefined a b) :
+    (∀ δ, unifyM a b = some δ → substT δ a = substT δ b ∧
+      ∀ σ : Nat → Term, substT σ a = substT σ b → ∀ u, substT σ (substT δ u) = substT σ u) ∧
+    (unifyM a b = none → ∀ σ : Nat → Term, substT σ a ≠ substT σ b) := by
+  by_cases hb : groundT b = true
+  · rw [unifyM_ground_right hb]
+    constructor
+    · intro δ hδ
+      simp only [Option.map_eq_some_iff] at hδ
+      obtain ⟨θ, hθ, rfl⟩ := hδ
+      refine ⟨by rw [(matchT_sound a b [] θ hθ).2 θ (Extends.refl _), substT_ground _ _ hb], ?_⟩
+      intro σ hσ u
+      rw [substT_ground σ b hb] at hσ
+      obtain ⟨θ', hθ', ha⟩ := matchT_complete σ a b [] (fun _ _ h => by cases h) hσ
+      rw [hθ] at hθ'; cases hθ'
+      exact subst_absorb ha (matchT_rangeGround a b [] θ hθ hb rangeGround_nil) u
+    · intro hnone σ hσ
+      rw [substT_ground σ b hb] at hσ
+      obtain ⟨θ', hθ', _⟩ := matchT_complete σ a b [] (fun _ _ h => by cases h) hσ
+      simp [hθ'] at hnone
+  · have hb' : groundT b = false := by simpa using hb
+    by_cases ha : groundT a = true
+    · have : unifyM a b = (matchT b a []).map Subst.fn := by simp [unifyM, hb', ha]
+      rw [this]
+      constructor
+      · intro δ hδ
+        simp only [Option.map_eq_some_iff] at hδ
+        obtain ⟨θ, hθ, rfl⟩ := hδ
+        refine ⟨by rw [(matchT_sound b a [] θ hθ).2 θ (Extends.refl _), substT_ground _ _ ha], ?_⟩
+        intro σ hσ u
+        rw [substT_ground σ a ha] at hσ
+        obtain ⟨θ', hθ', hag⟩ := matchT_complete σ b a [] (fun _ _ h => by cases h) hσ.symm
+        rw [hθ] at hθ'; cases hθ'
+        exact subst_absorb hag (matchT_rangeGround b a [] θ hθ ha rangeGround_nil) u
+      · intro hnone σ hσ
+        rw [substT_ground σ a ha] at hσ
+        obtain ⟨θ', hθ', _⟩ := matchT_complete σ b a [] (fun _ _ h => by cases h) hσ.symm
+        simp [hθ'] at hnone
+    · have ha' : groundT a = false := by simpa using ha
+      have hne : unifyE (unifyFuel a b) [(a, b)] ≠ none := by
+        rcases hd with h | h | h
+        · exact absurd h hb
+        · exact absurd h ha
+        · exact h
+      rw [unifyM_general hb' ha']
+      have hc := unifyE_complete (unifyFuel a b) [(a, b)]
+      have hu : ∀ σ : Nat → Term, substT σ a = substT σ b → Unifies σ [(a, b)] := by
+        intro σ h p hp; simp at hp; subst hp; exact h
+      cases hr : unifyE (unifyFuel a b) [(a, b)] with
+      | none => exact absurd hr hne
+      | some r =>
+        cases r with
+        | none =>
+          refine ⟨fun δ h => (by simp at h), fun _ σ hσ => hc.2 hr σ (hu σ hσ)⟩
+        | some δ' =>
+          refine ⟨?_, fun h => (by simp at h)⟩
+          intro δ hδ
+          simp only [Option.some.injEq] at hδ
+          subst hδ
+          exact ⟨unifyE_sound _ _ _ hr (a, b) (by simp), fun σ hσ u => hc.1 _ hr σ (hu σ hσ) u⟩
+
+/-- a deterministic builtin `Unify(a, b)` on arbitrary terms, where the relation holds for an
+    instance of the call iff that instance unifies `a` with `b` -/
+theorem exactInst_unifyAns_general {R : List Term → Prop} {args : List Term} {a b : Term}
+    (hd : UnifyDefined a b)
+    (h1 : ∀ σ : Nat → Term, substT σ a = substT σ b → R (args.map (substT σ)))
+    (h2 : ∀ σ : Nat → Term, R (args.map (substT σ)) → substT σ a = substT σ b) :
+    ExactInst R args (unifyAns args a b) := by
+  obtain ⟨k1, k2⟩ := unifyM_mgu hd
+  unfold unifyAns
+  cases hm : unifyM a b with
+  | none =>
+    apply exactInst_nil
+    rintro t hr ⟨σ, rfl⟩
+    exact k2 hm σ (h2 σ hr)
+  | some δ =>
+    obtain ⟨hs, hmgu⟩ := k1 δ hm
+    refine ⟨?_, ?_, by simp⟩
+    · intro t ht
+      simp at ht; subst ht
+      exact ⟨h1 δ hs, ⟨δ, rfl⟩⟩
+    · rintro t hr ⟨σ, rfl⟩
+      refine ⟨args.map (substT δ), by simp, σ, ?_⟩
+      simp [List.map_map, Function.comp_def, hmgu σ (h2 σ hr)]
+
+theorem unifyAns_general {args : List Term} {a b : Term} (hd : UnifyDefined a b) :
+    (∀ t ∈ unifyAns args a b, ∃ δ : Nat → Term, t = args.map (substT δ) ∧ substT δ a = substT δ b) ∧
+    (∀ σ : Nat → Term, substT σ a = substT σ b → ∃ δ : Nat → Term, unifyAns args a b = [args.map (substT δ)] ∧
+        ∀ t, substT σ (substT δ t) = substT σ t) := by
+  obtain ⟨k1, k2⟩ := unifyM_mgu hd
+  unfold unifyAns
+  cases hm : unifyM a b with
+  | none => exact ⟨by simp, fun σ hσ => absurd hσ (k2 hm σ)⟩
+  | some δ =>
+    obtain ⟨hs, hmgu⟩ := k1 δ hm
+    exact ⟨fun t ht => ⟨δ, by simpa using ht, hs⟩, fun σ hσ => ⟨δ, rfl, hmgu σ hσ⟩⟩
+
+theorem unifyAns_nodup (args : List Term) (a b : Term) : (unifyAns args a b).Nodup := by
+  unfold unifyAns; split <;> simp
+
+theorem nth_var_general {base : Int} {v : Nat} {es : List Term} {elem : Term}
+    (hd : ∀ i e, es[i]? = some e →
+      UnifyDefined (tuple [.var v, elem]) (tuple [.int (base + Int.ofNat i), e])) :
+    ExactInst (nthT base) [.var v, Term.list es, elem]
+      ((List.range es.length).flatMap fun i =>
+        match es[i]? with
+        | some e => unifyAns [.var v, Term.list es, elem] (tuple [.var v, elem]) (tuple [.int (base + Int.ofNat i), e])
+        | none => []) := by
+  have hsp : ∀ σ : Nat → Term, (substT σ (Term.list es)).spine.1 = es.map (substT σ) := by
+    intro σ
+    rw [substT_list]
+    have : substT σ Term.nilT = Term.nilT := by simp [Term.nilT, substT]
+    rw [this, spine_list_nil]
+  refine ⟨?_, ?_, ?_⟩
+  · intro t ht
+    simp only [List.mem_flatMap, List.mem_range] at ht
+    obtain ⟨i, hi, ht⟩ := ht
+    cases he : es[i]? with
+    | none => simp [he] at ht
+    | some e =>
+      simp only [he] at ht
+      obtain ⟨δ, rfl, hδ⟩ := (unifyAns_general (hd i e he)).1 t ht
+      refine ⟨?_, ⟨δ, rfl⟩⟩
+      rw [substT_tuple, substT_tuple] at hδ
+      have := tuple_inj hδ
+      simp only [List.map, substT_int, List.cons.injEq, and_true] at this
+      simp only [List.map, this.1, this.2, nthT, Relations.nth, hsp]
+      refine ⟨by simp only [Int.ofNat_eq_natCast]; omega, ?_⟩
+      have hi' : (base + Int.ofNat i - base).toNat = i := by simp only [Int.ofNat_eq_natCast]; omega
+      rw [hi', List.getElem?_map, he]; rfl
+  · rintro t hr ⟨σ, rfl⟩
+    simp only [List.map] at hr ⊢
+    cases hn : substT σ (Term.var v) <;> simp only [hn, nthT] at hr
+    rename_i m
+    obtain ⟨hb, he⟩ := hr
+    rw [hsp, List.getElem?_map] at he
+    cases hes : es[(m - base).toNat]? with
+    | none => simp [hes] at he
+    | some e =>
+      simp only [hes, Option.map_some, Option.some.injEq] at he
+      have hi := (List.getElem?_eq_some_iff.mp hes).1
+      have hσ : substT σ (tuple [Term.var v, elem]) =
+          substT σ (tuple [.int (base + Int.ofNat (m - base).toNat), e]) := by
+        rw [substT_tuple, substT_tuple]
+        simp only [List.map, hn, substT_int, he]
+        congr 3
+        simp only [Int.ofNat_eq_natCast]; omega
+      obtain ⟨δ, hδ, habs⟩ := (unifyAns_general (args := [.var v, Term.list es, elem]) (hd _ _ hes)).2 σ hσ
+      refine ⟨List.map (substT δ) [Term.var v, Term.list es, elem], ?_, σ, ?_⟩
+      · simp only [List.mem_flatMap, List.mem_range]
+        exact ⟨(m - base).toNat, hi, by rw [hes]; simp only; rw [hδ]; simp⟩
+      · simp [List.map, habs, hn]
+  · rw [List.Nodup, List.pairwise_flatMap]
+    constructor
+    · intro i _
+      split
+      · exact unifyAns_nodup _ _ _
+      · simp
+    · apply List.Pairwise.imp_of_mem _ (List.nodup_range (n := es.length))
+      intro i j _ _ hij x hx y hy hxy
+      subst hxy
+      cases hei : es[i]? with
+      | none => simp [hei] at hx
+      | some ei =>
+        cases hej : es[j]? with
+        | none => simp [hej] at hy
+        | some ej =>
+          simp only [hei] at hx
+          simp only [hej] at hy
+          obtain ⟨δ, rfl, hδ⟩ := (unifyAns_general (hd i ei hei)).1 _ hx
+          obtain ⟨δ', hxy, hδ'⟩ := (unifyAns_general (hd j ej hej)).1 _ hy
+          rw [substT_tuple, substT_tuple] at hδ hδ'
+          have h1 := tuple_inj hδ
+          have h2 := tuple_inj hδ'
+          simp only [List.map, substT_int, List.cons.injEq, and_true] at h1 h2 hxy
+          rw [hxy.1, h2.1] at h1
+          simp only [Term.int.injEq, Int.ofNat_eq_natCast] at h1
+          omega
+
 end PrologVerif.Rel
